@@ -33,6 +33,16 @@
 //!            state of a replica holding only those blocks and the intact packs; get_value of every object equals that
 //!            replica's; when the block arrives and at the end a FRESH Melda::new on the damaged storage is Err or shows
 //!            the same state.
+//!   shared-content:<order>@<step>  (history "shared": A d1; B melds, create_object(itemB, X), d2b with pack p2b; only
+//!            p2b is copied to A, A refreshes, create_object(itemA, X) with the byte-identical value plus one new value,
+//!            d2a — de-duplication by digest keeps X out of A's pack p2a, checked here, else the family is reported as
+//!            skipped) delivery orders of {d1,p1,d2a,p2a,p2b,d2b}: a block counts as complete only if, additionally,
+//!            the content digest of every revision it records (taken from the block file; deleted / resolved / empty /
+//!            charcode revisions excepted) is stored in some delivered pack (pack contents are computed here by
+//!            parsing the pack).  After every delivered file: refresh Ok; read(None) does not panic; Applied == complete
+//!            (so d2a is not Applied while p2b is absent), no block Ready; state == state of the complete blocks ==
+//!            state of a fresh Melda::new on the same files; with all but d2b delivered the state is A's after d2a,
+//!            with everything delivered it is A's after melding B.
 //! Everything runs in worker threads under a 10 s watchdog (`hang:` case, oracle stops).
 use super::orch::{self, Dyn, Listing, ListingAdapter, Out, Rng};
 use super::FailureClasses;
@@ -74,6 +84,9 @@ struct Block {
     id: String,
     parents: Vec<String>,
     packs: Vec<usize>, // file indices; usize::MAX = a listed pack that is not among the items
+    /// content digests of the revisions the block records (content-less revisions left out); only filled for the
+    /// shared-content history — elsewhere every recorded value lives in the block's own pack or an ancestor's
+    needs: Vec<String>,
 }
 
 pub struct Hist {
@@ -82,6 +95,8 @@ pub struct Hist {
     keys: Vec<String>,
     bytes: Vec<Vec<u8>>,
     blocks: Vec<Block>,
+    /// per file: digests of the values stored in it (packs of the shared-content history only)
+    contents: Vec<BTreeSet<String>>,
 }
 
 impl Hist {
@@ -105,6 +120,10 @@ impl Hist {
             let mut grew = false;
             for (bi, b) in self.blocks.iter().enumerate() {
                 if done.contains(&bi) || !has(b.file) || !b.packs.iter().all(|p| has(*p)) {
+                    continue;
+                }
+                // every recorded value must be stored in some delivered pack
+                if !b.needs.iter().all(|d| (0..self.n()).any(|f| has(f) && self.contents[f].contains(d))) {
                     continue;
                 }
                 let parents_ok = b.parents.iter().all(|p| self.blocks.iter().enumerate().any(|(pi, pb)| &pb.id == p && done.contains(&pi)));
@@ -182,7 +201,7 @@ pub fn build(long: bool, uniq: bool) -> Result<Hist, String> {
                 None => packs.push(usize::MAX),
             }
         }
-        blocks.push(Block { file, id: id.to_string(), parents, packs });
+        blocks.push(Block { file, id: id.to_string(), parents, packs, needs: vec![] });
     }
     // shape of the block graph this oracle is about
     let id_of = |s: &str| named.iter().find(|(x, _)| x == s).map(|(_, i)| i.to_string()).unwrap_or_default();
@@ -212,7 +231,8 @@ pub fn build(long: bool, uniq: bool) -> Result<Hist, String> {
     let labels: Vec<String> = perm.iter().map(|i| labels[*i].clone()).collect();
     let bytes: Vec<Vec<u8>> = perm.iter().map(|i| bytes[*i].clone()).collect();
     let keys: Vec<String> = perm.iter().map(|i| keys[*i].clone()).collect();
-    Ok(Hist { name: if uniq { "damage".into() } else if long { "long".into() } else { "base".into() }, labels, keys, bytes, blocks })
+    let contents = vec![BTreeSet::new(); keys.len()];
+    Ok(Hist { name: if uniq { "damage".into() } else if long { "long".into() } else { "base".into() }, labels, keys, bytes, blocks, contents })
 }
 
 struct Expect {
@@ -589,6 +609,239 @@ fn damage_family(thorough: bool, rng: &mut Rng, workers: usize, out: &Out) {
     });
 }
 
+// ------------------------------------------------------------------------------------------ shared content
+
+fn content_less(d: &str) -> bool {
+    d == "d" || d == "r" || d == "e" || (d.len() <= 8 && u32::from_str_radix(d, 16).is_ok())
+}
+
+pub struct Shared {
+    h: Hist,
+    /// A right after committing d2a (knows d1, d2a and the packs p1, p2a, p2b)
+    a_pre: Value,
+    /// A after melding B and refreshing (knows everything)
+    a_post: Value,
+    /// Some(reason) when A's own pack does contain the shared value (de-duplication did not happen): nothing to test
+    vacuous: Option<String>,
+}
+
+/// A: d1 (p1).  B melds A, refreshes, create_object(itemB, X), commits d2b (p2b holds X).  ONLY p2b is copied into A's
+/// storage and A refreshes (X is indexed from a pack of a block A does not know).  A: create_object(itemA, X) — the
+/// byte-identical value — and create_object(itemA2, new value), commits d2a: its pack p2a holds only the new value.
+pub fn build_shared() -> Result<Shared, String> {
+    let (ad_a, ad_b) = (orch::mem(), orch::mem());
+    let mut a = orch::open(&ad_a)?;
+    let mut b = orch::open(&ad_b)?;
+    let mut d1 = serde_json::Map::new();
+    d1.insert("title".into(), json!("todo"));
+    d1.insert(format!("a{}", F), json!({"_id": "o1", "text": "Feed the cat"}));
+    orch::ge("A.update(doc)", || a.update(d1))?;
+    let id1 = one(orch::ge("A.commit d1", || a.commit(None))?, "d1")?;
+    orch::ge("B.meld(A)", || b.meld(&a))?;
+    orch::ge("B.refresh", || b.refresh())?;
+    let x = || orch::obj(json!({"text": "Buy milk"}));
+    orch::ge("B.create_object(itemB)", || b.create_object("itemB", x()))?;
+    let id2b = one(orch::ge("B.commit d2b", || b.commit(None))?, "d2b")?;
+    let items_b = orch::items_of(&ad_b)?;
+    let delta2b = orch::ge("get_delta", || b.get_delta(&id2b))?.ok_or("get_delta(d2b) is None")?;
+    let p2b = delta2b.packs.clone().unwrap_or_default().into_iter().next().ok_or("d2b lists no pack")?;
+    let p2b_key = format!("{}.pack", p2b);
+    orch::put(&ad_a, &p2b_key, items_b.get(&p2b_key).ok_or("p2b not in B's storage")?)?;
+    orch::ge("A.refresh (p2b only)", || a.refresh())?;
+    orch::ge("A.create_object(itemA)", || a.create_object("itemA", x()))?;
+    orch::ge("A.create_object(itemA2)", || a.create_object("itemA2", orch::obj(json!({"text": "Walk the dog"}))))?;
+    let id2a = one(orch::ge("A.commit d2a", || a.commit(None))?, "d2a")?;
+    let a_pre = orch::state(&a);
+    let mut items = orch::items_of(&ad_a)?;
+    items.insert(id2b.key(), items_b.get(&id2b.key()).cloned().ok_or("d2b not in B's storage")?);
+    orch::ge("A.meld(B)", || a.meld(&b))?;
+    orch::ge("A.refresh", || a.refresh())?;
+    let a_post = orch::state(&a);
+
+    let keys: Vec<String> = items.keys().cloned().collect();
+    let bytes: Vec<Vec<u8>> = items.values().cloned().collect();
+    let mut labels: Vec<String> = keys.iter().map(|k| format!("?{}", &k[..k.len().min(10)])).collect();
+    let mut contents: Vec<BTreeSet<String>> = vec![BTreeSet::new(); keys.len()];
+    for (i, k) in keys.iter().enumerate() {
+        if k.ends_with(".pack") {
+            let v: Value = serde_json::from_slice(&bytes[i]).map_err(|e| format!("pack {} is not JSON: {}", k, e))?;
+            for el in v.as_array().ok_or("pack is not an array")? {
+                contents[i].insert(melda::vf::utils::digest_string(&el.to_string()));
+            }
+        }
+    }
+    let mut blocks = vec![];
+    for (suffix, id) in [("1", &id1), ("2a", &id2a), ("2b", &id2b)] {
+        let file = keys.iter().position(|k| k == &id.key()).ok_or_else(|| format!("block d{} is not among the items", suffix))?;
+        labels[file] = format!("d{}", suffix);
+        // parents, packs and recorded revisions are taken from the block file itself
+        let j: Value = serde_json::from_slice(&bytes[file]).map_err(|e| format!("block d{} is not JSON: {}", suffix, e))?;
+        let strs = |f: &str| -> Vec<String> { j[f].as_array().map(|a| a.iter().filter_map(|x| x.as_str().map(|s| s.to_string())).collect()).unwrap_or_default() };
+        let mut packs = vec![];
+        for (n, p) in strs("k").iter().enumerate() {
+            match keys.iter().position(|k| k == &format!("{}.pack", p)) {
+                Some(pf) => {
+                    labels[pf] = if n == 0 { format!("p{}", suffix) } else { format!("p{}.{}", suffix, n) };
+                    packs.push(pf);
+                }
+                None => packs.push(usize::MAX),
+            }
+        }
+        let mut needs = vec![];
+        for rec in j["c"].as_array().cloned().unwrap_or_default() {
+            if let Some(d) = rec.as_array().and_then(|r| r.last()).and_then(|d| d.as_str()) {
+                if !content_less(d) {
+                    needs.push(d.to_string());
+                }
+            }
+        }
+        blocks.push(Block { file, id: id.to_string(), parents: strs("p"), packs, needs });
+    }
+    if labels.iter().any(|l| l.starts_with('?')) || keys.len() != 6 {
+        return Err(format!("shared-content history: unexpected item set {:?}", labels));
+    }
+    // is the scenario what it is meant to be?
+    let idx = |l: &str| labels.iter().position(|x| x == l).unwrap();
+    let rec_of_item_a = blocks[1].needs.iter().find(|d| contents[idx("p2b")].contains(*d)).cloned();
+    let vacuous = match rec_of_item_a {
+        None => Some("no value recorded by d2a is stored in p2b".to_string()),
+        Some(d) if contents[idx("p2a")].contains(&d) => Some("A's own pack p2a also stores the shared value (no de-duplication)".to_string()),
+        Some(_) => None,
+    };
+    let mut perm: Vec<usize> = (0..keys.len()).collect();
+    perm.sort_by(|x, y| labels[*x].cmp(&labels[*y]));
+    let pos = |old: usize| if old == usize::MAX { usize::MAX } else { perm.iter().position(|p| *p == old).unwrap() };
+    for b in blocks.iter_mut() {
+        b.file = pos(b.file);
+        for p in b.packs.iter_mut() {
+            *p = pos(*p);
+        }
+    }
+    let h = Hist {
+        name: "shared".into(),
+        labels: perm.iter().map(|i| labels[*i].clone()).collect(),
+        keys: perm.iter().map(|i| keys[*i].clone()).collect(),
+        bytes: perm.iter().map(|i| bytes[*i].clone()).collect(),
+        contents: perm.iter().map(|i| contents[*i].clone()).collect(),
+        blocks,
+    };
+    Ok(Shared { h, a_pre, a_post, vacuous })
+}
+
+/// one delivery order of the shared-content history; after every delivered file refresh, then one case
+/// `shared-content:<order>@<step>`: refresh is Ok; state == fresh Melda::new on the same files; state == state of the
+/// causally AND content complete blocks (plus all delivered packs); read(None) does not panic; Applied blocks ==
+/// complete blocks, none left Ready; with everything but d2b delivered the state is A's after committing d2a, with
+/// everything delivered it is A's after melding B.
+fn run_shared(sh: &Shared, memo: &mut HashMap<u32, Expect>, order: &[usize], out: &Out) {
+    let h = &sh.h;
+    let os = h.order_str(order);
+    let input = input_of(h, order);
+    out.begin(&format!("shared-content:{}", os), input.clone());
+    let c = orch::mem();
+    let mut r: Melda = match orch::open(&c) {
+        Ok(r) => r,
+        Err(e) => return out.fail("shared-content", &format!("shared-content:{}@0", os), input, &e),
+    };
+    let (d2a, p2b, d2b) = (h.idx("d2a").unwrap_or(0), h.idx("p2b").unwrap_or(0), h.idx("d2b").unwrap_or(0));
+    let all = (1u32 << h.n()) - 1;
+    let mut mask = 0u32;
+    for (k, f) in order.iter().enumerate() {
+        let step = k + 1;
+        let id = format!("shared-content:{}@{}", os, step);
+        let at = format!("after delivering {} (step {})", h.labels[*f], step);
+        if let Err(e) = orch::put(&c, &h.keys[*f], &h.bytes[*f]) {
+            return out.fail("driver", &id, input, &e);
+        }
+        mask |= 1 << f;
+        let refreshed = orch::ge("refresh", || r.refresh());
+        out.case(&id, mask & (1 << d2a) != 0 && mask & (1 << p2b) == 0);
+        let ex = match expect(h, memo, mask) {
+            Ok(e) => e,
+            Err(e) => return out.fail("driver", &id, input, &e),
+        };
+        let s = orch::state(&r);
+        let label = |bid: &str| h.blocks.iter().find(|b| b.id == bid).map(|b| h.labels[b.file].clone()).unwrap_or_else(|| bid.to_string());
+        let verdict = (|| -> Result<(), String> {
+            refreshed.clone()?;
+            if s["read"].get("panic").is_some() {
+                return Err(format!("read(None) panics: {}", s["read"]["panic"].as_str().unwrap_or("").lines().next().unwrap_or("")));
+            }
+            let st = orch::g(|| r.vf_delta_statuses()).map_err(|p| format!("panic reading the block statuses: {}", p))?;
+            let applied: BTreeSet<String> = st.iter().filter(|(_, s)| s == "Applied").map(|(i, _)| i.clone()).collect();
+            if applied != ex.complete {
+                return Err(format!(
+                    "Applied blocks {:?} but the blocks that are causally complete AND whose recorded values are all in delivered packs are {:?}",
+                    applied.iter().map(|i| label(i)).collect::<Vec<String>>(),
+                    ex.complete.iter().map(|i| label(i)).collect::<Vec<String>>()
+                ));
+            }
+            if let Some((i, _)) = st.iter().find(|(_, s)| s == "Ready") {
+                return Err(format!("block {} left in status Ready after refresh", label(i)));
+            }
+            if s != ex.reference {
+                return Err(format!("replica state vs state of the complete blocks; {}", orch::first_difference(&s, &ex.reference, &orch::STATE_KEYS).unwrap_or_default()));
+            }
+            if s != ex.fresh {
+                return Err(format!("refreshed replica vs freshly opened replica on the same files; {}", orch::first_difference(&s, &ex.fresh, &orch::STATE_KEYS).unwrap_or_else(|| ex.fresh.to_string())));
+            }
+            if mask == all & !(1 << d2b) && s != sh.a_pre {
+                return Err(format!("all of A's own files delivered, state vs A after committing d2a; {}", orch::first_difference(&s, &sh.a_pre, &orch::STATE_KEYS).unwrap_or_default()));
+            }
+            if mask == all && s != sh.a_post {
+                return Err(format!("everything delivered, state vs A after melding B; {}", orch::first_difference(&s, &sh.a_post, &orch::STATE_KEYS).unwrap_or_default()));
+            }
+            Ok(())
+        })();
+        if let Err(w) = verdict {
+            out.fail("shared-content", &id, input.clone(), &format!("{}: {}", at, w));
+            return;
+        }
+    }
+}
+
+fn shared_orders(h: &Hist, thorough: bool) -> Vec<Vec<usize>> {
+    if thorough {
+        return orch::permutations(h.n());
+    }
+    // the four files of A's own blocks in every order (p2b absent throughout), then p2b and d2b in both orders
+    let own: Vec<usize> = ["d1", "p1", "d2a", "p2a"].iter().filter_map(|l| h.idx(l)).collect();
+    let tail: Vec<usize> = ["p2b", "d2b"].iter().filter_map(|l| h.idx(l)).collect();
+    let mut out = vec![];
+    for p in orch::permutations(own.len()) {
+        for t in orch::permutations(tail.len()) {
+            let mut o: Vec<usize> = p.iter().map(|i| own[*i]).collect();
+            o.extend(t.iter().map(|i| tail[*i]));
+            out.push(o);
+        }
+    }
+    out
+}
+
+fn shared_family(thorough: bool, out: &Out) {
+    out.begin("shared-content:history", json!({"history": "shared"}));
+    let sh = match build_shared() {
+        Ok(s) => s,
+        Err(e) => {
+            out.case("history:shared", true);
+            out.fail("history", "history:shared", json!({"history": "shared"}), &e);
+            return;
+        }
+    };
+    out.case("history:shared", true);
+    if let Some(why) = &sh.vacuous {
+        out.note(&format!("shared-content SKIPPED (scenario vacuous: {})", why));
+        out.not_exhaustive();
+        return;
+    }
+    let orders = shared_orders(&sh.h, thorough);
+    out.note(&format!("shared-content: {} delivery orders of the 6 files", orders.len()));
+    let mut memo: HashMap<u32, Expect> = HashMap::new();
+    for o in &orders {
+        run_shared(&sh, &mut memo, o, out);
+    }
+}
+
 fn variants(h: &Hist) -> Vec<(String, Listing)> {
     // child blocks first: last block of the history first, ..., origin last (both the stem and the full key form)
     let mut front = vec![];
@@ -716,6 +969,7 @@ fn work(thorough: bool, seed: u64, out: &Out) {
             }
         }
         damage_family(false, &mut rng, 1, out);
+        shared_family(false, out);
         return;
     }
     // thorough: the orders are spread over sub-workers (each with its own memo of expected states)
@@ -780,18 +1034,19 @@ fn work(thorough: bool, seed: u64, out: &Out) {
         }
     }
     damage_family(true, &mut rng, workers, out);
+    shared_family(true, out);
 }
 
 pub fn run(thorough: bool, seed: u64) -> Report {
     let mut rep = Report::new(
         "delivery",
         &(if thorough {
-            "one fixed source history (A: d1; B melds; A: d2a || B: d2b; A melds, d3 with parents {d2a,d2b}; 4 blocks + 4 packs = 8 item files): ALL 8! delivery orders of the files into an empty adapter observed by one long-lived replica, refresh + 3 checks after every delivered file; the same history extended by a pack-less block d4 (9 files): 20000 distinct seeded orders; listing-order variants (reversed, rotated by 1, rotated by half, sorted descending, child blocks first) on every subset of the 8 files and on the full set + 64 seeded subsets of the 9 files; damage-after-index: every pack listed by a block (p1, p2a, p2b, p3) x 18 damages (xor-1 at the middle and at 8 evenly spread positions, 5 replacement bytes incl. first and last byte, truncation to 0 / half / len-1, deletion) x {right after indexing, just before the block arrives} x 60 seeded orders with the pack before its block"
+            "one fixed source history (A: d1; B melds; A: d2a || B: d2b; A melds, d3 with parents {d2a,d2b}; 4 blocks + 4 packs = 8 item files): ALL 8! delivery orders of the files into an empty adapter observed by one long-lived replica, refresh + 3 checks after every delivered file; the same history extended by a pack-less block d4 (9 files): 20000 distinct seeded orders; listing-order variants (reversed, rotated by 1, rotated by half, sorted descending, child blocks first) on every subset of the 8 files and on the full set + 64 seeded subsets of the 9 files; damage-after-index: every pack listed by a block (p1, p2a, p2b, p3) x 18 damages (xor-1 at the middle and at 8 evenly spread positions, 5 replacement bytes incl. first and last byte, truncation to 0 / half / len-1, deletion) x {right after indexing, just before the block arrives} x 60 seeded orders with the pack before its block; shared-content: all 720 orders of its 6 files"
         } else {
-            "one fixed source history (A: d1; B melds; A: d2a || B: d2b; A melds, d3 with parents {d2a,d2b}; 4 blocks + 4 packs = 8 item files): 600 seeded orders out of the 720 that deliver d1 and its pack first (both ways) followed by a permutation of the other 6 files, plus 120 seeded permutations of all 8 files, plus 150 seeded permutations of the 9 files of the same history extended by a pack-less block d4, into an empty adapter observed by one long-lived replica, refresh + 3 checks after every delivered file; listing-order variants (reversed, rotated by 1, rotated by half, sorted descending, child blocks first) on the full sets and 6 seeded subsets; damage-after-index: every pack listed by a block (p1, p2a, p2b, p3) x {one byte xor 1, truncated to half, deleted} x {right after indexing, just before the block arrives} x 8 seeded orders with the pack before its block"
+            "one fixed source history (A: d1; B melds; A: d2a || B: d2b; A melds, d3 with parents {d2a,d2b}; 4 blocks + 4 packs = 8 item files): 600 seeded orders out of the 720 that deliver d1 and its pack first (both ways) followed by a permutation of the other 6 files, plus 120 seeded permutations of all 8 files, plus 150 seeded permutations of the 9 files of the same history extended by a pack-less block d4, into an empty adapter observed by one long-lived replica, refresh + 3 checks after every delivered file; listing-order variants (reversed, rotated by 1, rotated by half, sorted descending, child blocks first) on the full sets and 6 seeded subsets; damage-after-index: every pack listed by a block (p1, p2a, p2b, p3) x {one byte xor 1, truncated to half, deleted} x {right after indexing, just before the block arrives} x 8 seeded orders with the pack before its block; shared-content: the 4 files of A's own blocks in all 24 orders followed by p2b, d2b in both orders (48 orders of 6 files)"
         })
         .to_string(),
-        "enumeration of delivery orders (seeded where stated); one case per order, step and check (refresh-vs-reload / causal / status), per listing variant and file set, and per damage scenario (all its steps); non-trivial = a delivered block is causally incomplete at this step or was at the previous one; 10 s watchdog per worker thread (thorough: orders spread over 3 threads)",
+        "enumeration of delivery orders (seeded where stated); one case per order, step and check (refresh-vs-reload / causal / status), per listing variant and file set, per damage scenario (all its steps), and per shared-content order and step; non-trivial = a delivered block is causally incomplete at this step or was at the previous one; 10 s watchdog per worker thread (thorough: orders spread over 3 threads)",
     );
     if std::env::var_os("RAYON_NUM_THREADS").is_none() {
         std::env::set_var("RAYON_NUM_THREADS", "2");
@@ -804,6 +1059,18 @@ pub fn run(thorough: bool, seed: u64) -> Report {
 
 pub fn replay(case: &Value) -> Value {
     let inp = case["input"].clone();
+    if inp["history"].as_str() == Some("shared") {
+        let fails = orch::replay_collect(move |out| match build_shared() {
+            Err(e) => out.fail("history", "history:shared", json!({}), &e),
+            Ok(sh) => {
+                let order: Option<Vec<usize>> = inp["order"].as_array().and_then(|a| a.iter().map(|l| l.as_str().and_then(|l| sh.h.idx(l))).collect());
+                if let (Some(order), None) = (order, &sh.vacuous) {
+                    run_shared(&sh, &mut HashMap::new(), &order, out);
+                }
+            }
+        });
+        return orch::replay_verdict(case, fails);
+    }
     let uniq = inp["history"].as_str() == Some("damage");
     let long = uniq || inp["history"].as_str() == Some("long");
     let fails = orch::replay_collect(move |out| {
